@@ -6,7 +6,7 @@
    blocks assigned to it, in any order, once it knows the parent).  conf[n][b] = deputies whose confirm for b node
    n has stored; sig[d] = the last block deputy d signed (its own lastSig).
    Question asked of TLC: can two nodes ever hold CONFLICTING stable blocks? *)
-EXTENDS Naturals, FiniteSets, TLC
+EXTENDS Naturals, FiniteSets, Sequences, TLC
 CONSTANTS NB, ND
 Block == 1..NB
 G == 0
